@@ -27,7 +27,9 @@ pub struct TrainCase {
     pub links: Vec<LinkSpec>,
     pub train: TrainSpec,
     /// 0 set-speed; 1 speed-limited, whole path then walk; 2 speed-limited, link-by-link
-    /// extend_path interleaved with step()
+    /// extend_path interleaved with step(); 4 speed-limited through `walk_timed_path` with
+    /// link k becoming available when a train at `timed_speed` would reach it (3 is used by
+    /// C03 for timed paths that come out of the dispatcher)
     pub mode: u8,
     /// set-speed only: (time, speed)
     pub trace: Vec<(f64, f64)>,
@@ -57,6 +59,9 @@ pub struct TrainCase {
     /// extended path (the builder itself only ever calls it on an empty path)
     #[serde(default)]
     pub hand_assembled: bool,
+    /// mode 4 only: pace (m/s) of the generated link times
+    #[serde(default)]
+    pub timed_speed: f64,
     /// initial offset given as an absolute position (takes precedence over
     /// `init_offset_extra`): used where the start must be an exactly representable number
     #[serde(default)]
@@ -278,6 +283,16 @@ pub fn slts_schedule(
     started: &mut bool,
 ) -> anyhow::Result<()> {
     let n = path.len();
+    if case.mode == 4 {
+        let mut t = case.train.init_time;
+        let mut tp = vec![];
+        for (k, l) in case.links.iter().enumerate() {
+            tp.push(altrios_core::train::LinkIdxTime::new(path[k], altrios_core::uc::S * t));
+            t += (l.length / case.timed_speed.max(1.0)).round();
+        }
+        *started = true;
+        return sim.walk_timed_path(net, &tp);
+    }
     if case.mode == 1 {
         sim.extend_path(net, path)?;
         *started = true;
@@ -632,7 +647,7 @@ pub fn gen_set_speed_case(g: &mut Gen, tier: Tier, allow_dummy: bool) -> TrainCa
             v = v_new;
             trace.push((r(t, 1), v));
         }
-        return TrainCase { links, train, mode: 0, trace, save_interval: Some(1), simulation_days: None, init_speed_zero: false, also_real_walk: false, scenario_year: None, and_parts: false, init_offset_extra: 0.0, hand_assembled: false, init_offset_abs: None };
+        return TrainCase { links, train, mode: 0, trace, save_interval: Some(1), simulation_days: None, init_speed_zero: false, also_real_walk: false, scenario_year: None, and_parts: false, init_offset_extra: 0.0, hand_assembled: false, init_offset_abs: None, timed_speed: 0.0 };
     }
     let o = ChainOpts { max_links: 6, len_weights: [6, 3, 1], ..Default::default() };
     let ahead = g.grid(400.0, 6000.0, 14);
@@ -656,7 +671,7 @@ pub fn gen_set_speed_case(g: &mut Gen, tier: Tier, allow_dummy: bool) -> TrainCa
                 t += 1.0;
                 trace.push((t, 0.0));
             }
-            return TrainCase { links, train, mode: 0, trace, save_interval: Some(1), simulation_days: None, init_speed_zero: false, also_real_walk: false, scenario_year: None, and_parts: false, init_offset_extra: 0.0, hand_assembled: false, init_offset_abs: Some(start) };
+            return TrainCase { links, train, mode: 0, trace, save_interval: Some(1), simulation_days: None, init_speed_zero: false, also_real_walk: false, scenario_year: None, and_parts: false, init_offset_extra: 0.0, hand_assembled: false, init_offset_abs: Some(start), timed_speed: 0.0 };
         }
     }
     // 30 %: the train starts further along the path than with its tail at the beginning
@@ -664,7 +679,7 @@ pub fn gen_set_speed_case(g: &mut Gen, tier: Tier, allow_dummy: bool) -> TrainCa
     let init_offset_extra = if g.bool(0.3) && room > 50.0 { r(g.f64(1.0, room * 0.7), 1) } else { 0.0 };
     // consistent inputs: the trace starts at the train's initial time and speed
     let trace = gen_trace(g, total - tp.length - init_offset_extra - 20.0, 30.0, train.init_time, max_steps);
-    TrainCase { links, train, mode: 0, trace, save_interval: Some(1), simulation_days: None, init_speed_zero: false, also_real_walk: false, scenario_year: None, and_parts: false, init_offset_extra, hand_assembled: false, init_offset_abs: None }
+    TrainCase { links, train, mode: 0, trace, save_interval: Some(1), simulation_days: None, init_speed_zero: false, also_real_walk: false, scenario_year: None, and_parts: false, init_offset_extra, hand_assembled: false, init_offset_abs: None, timed_speed: 0.0 }
 }
 
 // ---------------------------------------------------------------------------------------
